@@ -1,5 +1,7 @@
 import Fabio.Generated.C15
 import Fabio.Props.C15
+import Fabio.Props.C15Cmd
+import Fabio.Props.C15Listen
 /-! Obligations over the facts regenerated from `/repo` on every run (C15). -/
 namespace Fabio.Props.C15Facts
 open Fabio Fabio.Model.C15 Fabio.Props.C15
@@ -72,5 +74,55 @@ theorem index_sites_guarded : indexGuards =
      ("p0[@i+1]", "exit-if @i >= len(p0)-1"),
      ("p0[@i]", "loop-while @i < len(p0)"),
      ("r1[0]", "after-case r1 == \"\"")] := by decide
+
+/-! ### the command line as typed (round 4) -/
+
+/-- the options a user can set on the command line: every registered flag except the three the pre-pass of
+`config.Load` takes for itself (`-v`, `-version`, `-cfg`) -/
+def settableNames : List Str :=
+  flagNames.filter (fun n => n != "v".toList && n != "version".toList && n != "cfg".toList)
+
+/-- **every settable option's name is safe on the command line**: the flag package can carry it (not empty, no
+leading `-`/`=`, no `=` inside) and neither `-name`, `--name` nor anything starting with `-name=`/`--name=` is
+taken by the pre-pass (no option is called `test.…`).  Hypothesis `hs` of `C15Cmd.cmdline_spelling_partial`. -/
+theorem flag_names_cmdline_safe : Fabio.Props.C15Cmd.namesCmdlineSafe settableNames = true := by decide +kernel
+
+/-- the pre-pass flags are registered too (so that `-h` lists them), and they are exactly the names excluded -/
+theorem prepass_flags_registered :
+    ["v".toList, "version".toList, "cfg".toList].all (fun n => flagNames.contains n) = true := by decide +kernel
+
+/-- the flag kinds the tokeniser model needs: `formal name` = is it registered, and is it boolean -/
+def formal (n : Str) : Option Bool :=
+  match flagTable.find? (fun r => r.1 == n) with
+  | some r => some (r.2.1 == "bool")
+  | none => none
+
+/-- **the command line as typed, on the real table**: any spelling of any assignments to settable options that
+fits their kinds reaches `ParseFlags` as exactly that list (instance of `cmdline_spelling_partial`). -/
+theorem cmdline_spelling_here (accepts : Str → Str → Bool) (prog : Str) (xs : List (Str × Str × Form))
+    (hx : ∀ x ∈ xs, x.1 ∈ settableNames) (hwf : ∀ x ∈ xs, Fabio.Props.C15Cmd.wf formal accepts x)
+    (hv : Fabio.Props.C15Cmd.splitValuesPlain xs) :
+    parsePre (prog :: spell xs) = .ok (.ok { rest := spell xs, path := [] }) ∧
+    tokenise formal accepts (spell xs) [] = .ok { pairs := xs.map (fun x => (x.1, x.2.1)), positional := [] } :=
+  Fabio.Props.C15Cmd.cmdline_spelling_partial formal accepts settableNames flag_names_cmdline_safe prog xs hx hwf hv
+
+/-! ### listeners (round 4) -/
+
+/-- the protocol names of the model are the case literals of the protocol switch in `parseListen`, and that
+switch rejects every other name -/
+theorem listen_protos_model :
+    listenProtosAccepted.all (fun p => acceptedProtos.contains p.toList) = true ∧
+    acceptedProtos.all (fun p => listenProtosAccepted.contains (String.ofList p)) = true ∧
+    listenProtoOthersRejected = true := by decide
+
+/-- **`main.startServers` has a case for every protocol name `parseListen` accepts** (every switch over a
+listener's `.Proto` in package main; its `default:` ends the process) -/
+theorem listen_protos_handled :
+    (∀ p ∈ acceptedProtos, p ∈ listenProtosHandled.map String.toList) ∧ 0 < listenProtoSwitches := by decide
+
+/-- **an accepted listener can be started, on the source as it is now** -/
+theorem accepted_listener_startable_here (E : ListenEnv) (cfg : Map) (l : LListen)
+    (h : parseListenM E cfg = .ok l) : startable (listenProtosHandled.map String.toList) l = true :=
+  Fabio.Props.C15Listen.accepted_listener_startable E _ listen_protos_handled.1 cfg l h
 
 end Fabio.Props.C15Facts
